@@ -687,6 +687,12 @@ def gen_number(rng, tier):
         else:
             out.append(dict(base, draws=draws(rng, "raw")))
         out.append(dict(base, draws=draws(rng, "free", rows=200 if tier == "quick" else 400)))
+    # exhaustive small triples, every draw of each
+    for mn in ((0,) if tier == "quick" else (-2, -1, 0, 1, 5)):
+        for span in range(0, 7 if tier == "quick" else 13):
+            for step in range(1, 9 if tier == "quick" else 15):
+                out.append({"kind": "number", "min": mn, "max": mn + span, "step": step, "style": "block",
+                            "draws": draws(rng, "all", rows=span // step + 1)})
     # the error stream: empty ranges, zero / negative steps
     bad = [(5, 4, None), (5, 4, 1), (5, 4, 3), (0, -1, 2), (10, 1, 3), (1, 4, 0), (4, 1, 0), (10, 1, -3), (10, 1, -1), (1, 10, -3),
            (3, 3, -1), (2 ** 70, 2 ** 70 - 1, 1), (-5, -6, 2)]
